@@ -5,6 +5,7 @@ from vlib import cli, bip39, txgen
 ID = "C11"
 NEEDS_CLI = True
 NEEDS_PLAIN_CLI = True
+THOROUGH_ROUNDS = 3
 RULE = ("real binary `sign transaction` x {--allow-missing-relay-protection, not} x {--signature-only, full} x kinds x chain ids {absent, null, 0, 1, 2^64-1, "
         "2^255-20, 2^255-19 (largest with 35+2c+1 < 2^256), 2^255-18, 2^255, 2^256-1}, plus library op sig.v <parity> <chain>; "
         "non-trivial = distinct (kind, chain id, flags); judge decodes the output strictly, checks v = 35+2c+parity as an integer (27/28 without chain id, "
